@@ -397,6 +397,58 @@ class Driver:
 
 
 # ------------------------------------------------------------------------------------------------
+ESCALATION_BUDGET_S = 240
+FPRINT_FILE = os.path.join(VERIF, "harness", "fingerprints.json")
+
+
+def _ast_hash(path):
+    import ast
+    try:
+        tree = ast.parse(open(path).read())
+    except Exception as e:
+        return "unparseable:" + type(e).__name__
+    return hashlib.sha256(ast.dump(tree, annotate_fields=False, include_attributes=False).encode()).hexdigest()[:20]
+
+
+def anchor_files(prop: str):
+    files = []
+    for l in open(os.path.join(VERIF, "properties.jsonl")):
+        d = json.loads(l)
+        if d["id"] == prop:
+            for f in d["anchors"]["files"]:
+                full = os.path.join(REPO, f)
+                if os.path.isdir(full):
+                    files += sorted(os.path.relpath(p, REPO) for p in glob.glob(os.path.join(full, "**", "*.py"), recursive=True))
+                else:
+                    files.append(f)
+    return files
+
+
+def current_fingerprints(prop: str):
+    return {f: _ast_hash(os.path.join(REPO, f)) for f in anchor_files(prop)}
+
+
+def anchors_changed(prop: str):
+    """(changed?, files) — normalized-AST hash of the property's anchor files vs harness/fingerprints.json.
+    A change is NOT a violation; it only widens this run (DESIGN.md section 2.3)."""
+    try:
+        rec = json.load(open(FPRINT_FILE)).get(prop, {})
+    except Exception:
+        return False, []
+    cur = current_fingerprints(prop)
+    changed = [f for f in cur if rec.get(f) != cur[f]]
+    return bool(changed), changed
+
+
+def record_fingerprints():
+    out = {}
+    for l in open(os.path.join(VERIF, "properties.jsonl")):
+        pid = json.loads(l)["id"]
+        out[pid] = current_fingerprints(pid)
+    json.dump(out, open(FPRINT_FILE, "w"), indent=0, sort_keys=True)
+    return out
+
+
 def load_known(prop: str):
     """returns {id: text} of `open:` findings for prop"""
     res = {}
@@ -451,6 +503,10 @@ def run_property(mod, tier: str) -> int:
 
     # ---- correspondence: implementation vs extracted model
     disagreements = []
+    n_disagree = 0
+    escalate, changed_files = anchors_changed(prop) if tier == "quick" else (False, [])
+    if escalate:
+        say("[%s] anchored source changed since fingerprints were recorded (%s): escalating the quick tier" % (prop, ", ".join(changed_files[:5])))
     n_cases = 0
     distinct_nontrivial = 0
     samples = []
@@ -458,38 +514,61 @@ def run_property(mod, tier: str) -> int:
     t_corr = time.time()
     if br.model_ok and driver_name:
         rng = rng_for(seed, prop, "model")
-        cases = []
-        corpus = getattr(mod, "corpus_cases", None)
-        if corpus:
-            cases += list(corpus())
-        cases += list(mod.model_cases(rng, tier))
+        phase = {"esc": False}
+
+        def stream():
+            corpus = getattr(mod, "corpus_cases", None)
+            if corpus:
+                for c in corpus():
+                    yield c
+            for c in mod.model_cases(rng, tier):
+                yield c
+            if escalate:
+                phase["esc"] = True
+                for c in mod.model_cases(rng_for(seed, prop, "model-escalated"), "thorough"):
+                    yield c
+
         drv = Driver(driver_name, getattr(mod, "ORACLES", None), getattr(mod, "INTERACTIVE", False))
-        # shard to keep memory flat
-        model_out = []
-        B = 20000
-        for i in range(0, len(cases), B):
-            model_out += drv.run([c.line for c in cases[i:i + B]])
         seen = set()
         nontriv = getattr(mod, "nontrivial", lambda line, r: not r.startswith("!"))
-        for c, m in zip(cases, model_out):
-            try:
-                i = c.impl()
-            except Exception as e:  # harness bug: surface loudly
-                i = "!HARNESS:" + type(e).__name__ + ":" + str(e)[:100]
-            n_cases += 1
-            fn = c.line.split(" ", 1)[0]
-            key = fn + (":err" if m.startswith("!") else ":ok")
-            hist[key] = hist.get(key, 0) + 1
-            if c.line not in seen:
-                seen.add(c.line)
-                if nontriv(c.line, m):
-                    distinct_nontrivial += 1
-            if i != m:
-                disagreements.append({"case": c.line, "impl": i, "model": m, "meta": c.meta})
-            elif len(samples) < 6 and (n_cases % max(1, len(cases) // 6) == 0):
-                samples.append({"case": c.line[:300], "both": m[:300]})
+        B = 20000
+        it = iter(stream())
+        deadline = None
+        while True:
+            cases = []
+            for c in it:
+                cases.append(c)
+                if len(cases) >= B:
+                    break
+            if not cases:
+                break
+            model_out = drv.run([c.line for c in cases])
+            for c, m in zip(cases, model_out):
+                try:
+                    i = c.impl()
+                except Exception as e:  # harness bug: surface loudly
+                    i = "!HARNESS:" + type(e).__name__ + ":" + str(e)[:100]
+                n_cases += 1
+                fn = c.line.split(" ", 1)[0]
+                key = fn + (":err" if m.startswith("!") else ":ok")
+                hist[key] = hist.get(key, 0) + 1
+                if c.line not in seen:
+                    seen.add(c.line)
+                    if nontriv(c.line, m):
+                        distinct_nontrivial += 1
+                if i != m:
+                    if len(disagreements) < 200:
+                        disagreements.append({"case": c.line, "impl": i, "model": m, "meta": c.meta})
+                    n_disagree += 1
+                elif len(samples) < 6 and (n_cases % 997 == 1):
+                    samples.append({"case": c.line[:300], "both": m[:300]})
+            if phase["esc"]:
+                if deadline is None:
+                    deadline = time.time() + ESCALATION_BUDGET_S
+                if time.time() > deadline or n_disagree:
+                    break
         say("[%s] correspondence: %d cases, %d distinct non-trivial, %d disagreements, %.1fs" % (
-            prop, n_cases, distinct_nontrivial, len(disagreements), time.time() - t_corr))
+            prop, n_cases, distinct_nontrivial, n_disagree, time.time() - t_corr))
     # ---- direct property checks on the implementation (and impl-vs-spec)
     failures = []
     n_prop = 0
@@ -497,7 +576,20 @@ def run_property(mod, tier: str) -> int:
     prng = rng_for(seed, prop, "prop")
     pc_hist = {}
     prop_samples = []
-    for pc in mod.prop_cases(prng, tier):
+    def prop_stream():
+        for pc in mod.prop_cases(prng, tier):
+            yield pc, False
+        if escalate:
+            for pc in mod.prop_cases(rng_for(seed, prop, "prop-escalated"), "thorough"):
+                yield pc, True
+
+    pdeadline = None
+    for pc, esc in prop_stream():
+        if esc:
+            if pdeadline is None:
+                pdeadline = time.time() + ESCALATION_BUDGET_S
+            if time.time() > pdeadline or failures:
+                break
         n_prop += 1
         pc_hist[pc.name] = pc_hist.get(pc.name, 0) + 1
         try:
@@ -585,7 +677,7 @@ def run_property(mod, tier: str) -> int:
             "distinct_nontrivial": distinct_nontrivial,
             "rule": getattr(mod, "RULE", "correspondence cases are distinct driver lines; non-trivial = the model returns a value rather than an error"),
             "samples": (samples + prop_samples) or [{"note": "no case ran"}],
-            "correspondence_cases": n_cases, "correspondence_disagreements": len(disagreements),
+            "correspondence_cases": n_cases, "correspondence_disagreements": n_disagree, "escalated": escalate, "anchor_files_changed": changed_files,
             "direct_property_checks": n_prop, "direct_failures": len(failures),
             "known_findings_hit": {k: len(v) for k, v in known_hits.items()},
             "case_histogram": hist, "property_check_histogram": pc_hist,
